@@ -63,6 +63,18 @@ fn faults_for(case: &Case, image: &[u8], hlen: usize, chunk: usize, lay: Option<
             v.push(Fault::Splice { i, j });
         }
     }
+    if case.param("far_chunks", 0) == 1 {
+        // chunk edits between indices that differ by 256 (and other distances): counter bytes above the lowest
+        for _ in 0..12 {
+            let d = *rng.pick(&[256usize, 256, 255, 257, 128, 512]);
+            if nch > d + 2 {
+                let i = rng.usize_below(nch - d - 1);
+                v.push(Fault::ChunkSwap { i, j: i + d });
+                v.push(Fault::ChunkMove { i, j: i + d });
+                v.push(Fault::ChunkMove { i: i + d, j: i });
+            }
+        }
+    }
     // the last chunks too when there are many
     if nch > cap {
         v.push(Fault::ChunkDel { i: nch - 1 });
@@ -133,14 +145,26 @@ impl Prop for C03 {
             cfg.recipients = rng.range(1, 3) as usize;
             cfg.reader = rng.usize_below(cfg.recipients);
         }
+        let many = variant != "prodv" && variant != "prod" && rng.chance(1, 20);
         let total = match variant {
+            _ if many => 300 * c.chunk + rng.usize_below(100 * c.chunk),
             "s0" => rng.range(20, 260) as usize,
             "s1" => rng.range(60, 900) as usize,
             _ => 3 * c.chunk + 100,
         };
         let o = GenOpts { max_files: 3, max_ops: 10, max_piece: total, max_total: total, interleave: rng.chance(1, 2), flushes: false, special_names: false, finalize: true, piece_scheds: false };
-        let ops = gen_ops(&mut rng, &c, &o);
+        let mut ops = gen_ops(&mut rng, &c, &o);
+        if many {
+            // several hundred chunks: positions whose index differs only in the higher counter bytes
+            cfg.layers = L_ENC;
+            ops = vec![WOp::Add { name: Name::lit("big"), data: Data::Rand { n: total, seed: rng.u64() }, src: Src::exact() }, WOp::Add { name: Name::lit("small"), data: Data::Text { n: 50, seed: 1 }, src: Src::exact() }, WOp::Finalize];
+        }
         let mut case = Case::new("C03", cfg, ops);
+        if many {
+            case.params.insert("far_chunks".into(), 1);
+            case.params.insert("samples".into(), 200);
+            case.params.insert("max_anchors".into(), 4);
+        }
         case.params.insert("hist_seed".into(), (rng.u64() >> 1) as i64);
         if big {
             case.params.insert("samples".into(), 40);
